@@ -35,6 +35,9 @@ FORMS = {
     "ymd-dash-hms-f": [("Y", 4), "-", ("M", 2), "-", ("D", 2), " ", ("H", 2), ":", ("T", 2), ":", ("S", 2),
                        ".", ("f", 6)],
     "dmy-dash-12h": [("D", 2), "-", ("M", 2), "-", ("Y", 4), " ", ("I", 2), ":", ("T", 2), " ", "P"],
+    # one-digit month and day
+    "ymd-slash-1digit": [("Y", 4), "/", ("M", 1), "/", ("D", 1)],
+    "dmy-dash-1digit-month": [("D", 2), "-", ("M", 1), "-", ("Y", 4)],
 }
 # 12-hour markers: Latin for both calendars, the Arabic words for Hijri
 MARKERS = {"jalali": [("am", 0), ("pm", 12)],
